@@ -210,6 +210,7 @@ def render(prog):
     funcs = prog["funcs"]
     L = ["import mtv_support as S", ""]
     top, kb, k, inner = [], [], [], []
+    kr = []  # root class above KB: namesakes (never called) of overridden and static methods, defined FIRST in the module
 
     def body(f, ind):
         B = []
@@ -350,13 +351,21 @@ def render(prog):
                 dest.append(f"{pad}    S.R.post(_c, _r)")
                 kb.append(f"    def F{i}({sig_src(f, recv)}):")
                 kb.append("        return 'base'")
+                kr.append(f"    def F{i}(self, *a, **k):")
+                kr.append("        return 'root'")
+            if kd == "staticmethod":
+                kr.append("    @staticmethod")
+                kr.append(f"    def F{i}(*a, **k):")
+                kr.append("        return 'root'")
             dest += body(f, pad + "    ")
             if kd == "setprop":
                 dest.append(f"{pad}@F{i}.setter")
                 dest.append(f"{pad}def F{i}(self, v):")
                 dest.append(f"{pad}    pass")
     L += top
-    L.append("class KB:")
+    L.append("class KR:")
+    L += kr or ["    pass"]
+    L.append("class KB(KR):")
     L += kb or ["    pass"]
     L.append("class K(KB):")
     L += k or ["    pass"]
